@@ -151,9 +151,9 @@ fn main() {
             let s = &rep.stats;
             let mut rep_errors = rep.errors.clone();
             if s.controls == 0 || s.controls_ok == 0 { rep_errors.push("vacuity: no path of this instance passed its control obligation".to_string()); }
-            println!("{{\"prop\":{},\"instance\":{},\"paths\":{},\"pruned\":{},\"decisions\":{},\"forks\":{},\"obligations\":{},\"syntactic\":{},\"const_eval\":{},\"solver_discharged\":{},\"undecided\":{},\"failed\":{},\"controls\":{},\"controls_ok\":{},\"q_sat\":{},\"q_unsat\":{},\"q_unknown\":{},\"q_memo\":{},\"q_numeric\":{},\"solver_s\":{:.3},\"nontrivial_paths\":{},\"cases\":{},\"truncated\":{},\"wall_s\":{:.3},\"violations\":[{}],\"undecided_labels\":{},\"control_failures\":{},\"errors\":{},\"samples\":{},\"notes\":{}}}",
+            println!("{{\"prop\":{},\"instance\":{},\"paths\":{},\"pruned\":{},\"decisions\":{},\"forks\":{},\"obligations\":{},\"syntactic\":{},\"const_eval\":{},\"solver_discharged\":{},\"undecided\":{},\"failed\":{},\"controls\":{},\"controls_ok\":{},\"q_sat\":{},\"q_unsat\":{},\"q_unknown\":{},\"q_memo\":{},\"q_numeric\":{},\"solver_s\":{:.3},\"nontrivial_paths\":{},\"cases\":{},\"truncated\":{},\"wall_s\":{:.3},\"violations\":[{}],\"undecided_labels\":{},\"control_failures\":{},\"errors\":{},\"samples\":{},\"notes\":{},\"sample_smt\":{}}}",
                 jstr(&prop), jstr(&inst), s.paths, s.paths_pruned, s.decisions, s.forks, s.obligations, s.discharged_syntactic, s.discharged_concrete_const, s.discharged_solver, s.undecided, s.failed, s.controls, s.controls_ok, s.q_sat, s.q_unsat, s.q_unknown, s.q_memo, s.q_numeric, s.solver_s, s.nontrivial_paths, s.cases, s.truncated, t0.elapsed().as_secs_f64(),
-                viol.join(","), jlist(&undecided_left), jlist(&rep.control_failures), jlist(&rep_errors), jlist(&rep.samples), jlist(&rep.notes));
+                viol.join(","), jlist(&undecided_left), jlist(&rep.control_failures), jlist(&rep_errors), jlist(&rep.samples), jlist(&rep.notes), jstr(rep.sample_smt.as_deref().unwrap_or("")));
         }
         "concrete" => {
             let (prop, inst) = (args[2].clone(), args[3].clone());
